@@ -184,6 +184,21 @@ func c11GenDoc(r *Rng, tame bool) c11Doc {
 	}
 	paths := J{"/x": J{"post": op}}
 	if r.Chance(50) {
+		// an inline string enum as a text/plain request body
+		var es J
+		for {
+			e := c11GenEnum(r, tame)
+			if e.Base == "string" {
+				d.Enums = append(d.Enums, e)
+				d.Where = append(d.Where, "text-body")
+				es = e.Schema()
+				break
+			}
+		}
+		paths["/z"] = J{"put": J{"operationId": "setMode", "responses": J{"204": J{"description": "d"}},
+			"requestBody": J{"required": true, "content": J{"text/plain": J{"schema": es}}}}}
+	}
+	if r.Chance(50) {
 		// an enum on the path parameter of an operation that has nothing else: no other parameter, no body
 		paths["/y/{kind}"] = J{"get": J{"operationId": "getKind", "responses": J{"204": J{"description": "d"}},
 			"parameters": []interface{}{J{"name": "kind", "in": "path", "required": true, "schema": add("path-parameter-alone")}}}}
